@@ -30,6 +30,7 @@ import (
 )
 
 type FCClient struct {
+	Text    bool     `json:"text,omitempty"` // a text (RESP) connection: LOCK/UNLOCK command lines
 	Target  int      `json:"target"` // 0 = leader, i>0 = follower i-1
 	StartMs int      `json:"start_ms"`
 	Ops     []OpSpec `json:"ops"`
@@ -60,6 +61,7 @@ func genFollowerClients(prop string, seed uint64, tier string) *Scenario {
 		if c == 0 {
 			fc.Target = 1 // at least one client on a follower
 		}
+		fc.Text = r.Intn(4) == 0
 		no := 4 + r.Intn(14)
 		for i := 0; i < no; i++ {
 			o := OpSpec{Cmd: 1, Key: r.Intn(body.NKeys), Lid: c*8 + r.Intn(3), DelayMs: r.Intn(400), Wait: true}
@@ -268,6 +270,9 @@ func runFollowerClients(w *World) {
 				w.probe("state_error_via_follower")
 			}
 		}
+		if rep.Text && rep.TextRaw != "" {
+			w.violate("C10", "text_reply_not_a_lock_result", "request %s sent over a text connection to %s was answered %s, neither a lock result nor a refusal", r, via, rep.TextRaw)
+		}
 		bk := fmt.Sprintf("%d/%d", r.Op.Key, r.Op.Lid)
 		switch {
 		case r.Op.Cmd == protocol.COMMAND_LOCK && rep.Result == protocol.RESULT_SUCCED && r.Op.Expried > 0:
@@ -333,14 +338,33 @@ func runFollowerClients(w *World) {
 				if fc.Target > 0 {
 					addr = fr.fnodes[fc.Target-1].addr
 				}
-				c, err := newBinClient(w, fr.h, addr, ci)
-				if err != nil {
-					w.logf("client %d dial %s: %v", ci, addr, err)
-					return
+				var c Client
+				var conn *snet.SimConn
+				var rerr func() error
+				if fc.Text {
+					tc, err := newTextClient(w, fr.h, addr, ci)
+					if err != nil {
+						w.logf("client %d dial %s: %v", ci, addr, err)
+						return
+					}
+					c, conn, rerr = tc, tc.conn, func() error { return tc.readErr }
+					if fc.Target > 0 {
+						w.probe("text_clients_via_follower")
+					}
+				} else {
+					bc, err := newBinClient(w, fr.h, addr, ci)
+					if err != nil {
+						w.logf("client %d dial %s: %v", ci, addr, err)
+						return
+					}
+					c, conn, rerr = bc, bc.conn, func() error { return bc.readErr }
 				}
 				for i, op := range fc.Ops {
 					if op.DelayMs > 0 {
 						sleep(time.Duration(op.DelayMs) * time.Millisecond)
+					}
+					if fc.Text {
+						textable(&op)
 					}
 					r := fr.h.invoke(ci, i, op)
 					if err := c.Send(r); err != nil {
@@ -348,7 +372,7 @@ func runFollowerClients(w *World) {
 						return
 					}
 					if !waitReply(r, 60*time.Second) {
-						if c.conn.Closed() || c.readErr != nil {
+						if conn.Closed() || rerr() != nil {
 							r.lost = true
 							return
 						}
